@@ -113,6 +113,25 @@ def adds (i : Nat) (σ : List Step) : List Bytes :=
 /-- No step of `σ` resets cell `i`. -/
 def noClr (i : Nat) (σ : List Step) : Bool := σ.all fun s => s != .clr i
 
+/-- What a read of a cell yields when it held `x` at some earlier moment and the steps `σ`, none of
+them a reset of this cell, ran in between: a verifier's list has only grown, by exactly the errors
+added in between; a pingback is still pending iff it was and none of the steps satisfied it. -/
+def Cell.grown (i : Nat) (σ : List Step) : Cell → List Bytes
+  | .errs l => l ++ adds i σ
+  | .ping msg p => if p && !(σ.any (· == .pong i)) then [msg] else []
+
+/-- What a non-atomic query that began in state `c` reports when no reset overlaps it: `pre` = the
+foreign steps since it began, `gs` the foreign steps before each of the remaining reads. -/
+def Cells.qspec : Cells → Nat → List Step → List (List Step) → List Bytes
+  | _, _, _, [] => []
+  | c, i, pre, g :: gs =>
+    (match c[i]? with | some x => x.grown i (pre ++ g) | none => []) ++ Cells.qspec c (i + 1) (pre ++ g) gs
+
+/-- No reset of a cell falls between the beginning of the query and its read of that cell. -/
+def qNoReset : Nat → List Step → List (List Step) → Bool
+  | _, _, [] => true
+  | i, pre, g :: gs => noClr i (pre ++ g) && qNoReset (i + 1) (pre ++ g) gs
+
 /-! ### the cells and the step programs of a tree -/
 
 mutual
@@ -221,5 +240,64 @@ inductive Interleaving : List (List Step) → List Step → Prop
   | done (ps : List (List Step)) : (∀ p ∈ ps, p = []) → Interleaving ps []
   | pick (ps : List (List Step)) (i : Nat) (a : Step) (p : List Step) (σ : List Step) :
       ps[i]? = some (a :: p) → Interleaving (ps.set i p) σ → Interleaving ps (a :: σ)
+
+/-- A phase is well formed: a batch is an interleaving of its programs, which consist of steps of
+exchanges only. -/
+def Phase.ok : Phase → Prop
+  | .batch ps σ => Interleaving ps σ ∧ ∀ p ∈ ps, ∀ s ∈ p, s.isMod = true
+  | _ => True
+
+/-- Two lists of reports agree report by report up to the order of the entries. -/
+def permLists : List (List Bytes) → List (List Bytes) → Prop
+  | [], [] => True
+  | a :: as, b :: bs => a.Perm b ∧ permLists as bs
+  | _, _ => False
+
+/-! ### one side of the sequential model, op by op -/
+
+def T.stepOp (side : Side) (t : T) : Op → T
+  | .traffic m => (t.modify side m).1
+  | .query => t
+  | .reset => t.reset side
+
+def T.runOps (side : Side) (t : T) (h : List Op) : T := h.foldl (T.stepOp side) t
+
+/-- The reports of the queries of a sequential history, in order. -/
+def T.reports (side : Side) : T → List Op → List (List Bytes)
+  | _, [] => []
+  | t, .query :: h => handlerErrors (t.verify side) :: T.reports side t h
+  | t, .traffic m :: h => T.reports side (t.modify side m).1 h
+  | t, .reset :: h => T.reports side (t.reset side) h
+
+/-- The reports the property demands of the queries of a sequential history: for each query, the
+specification `T.spec` of the exchanges since the last reset (`acc` = those before the history). -/
+def specReports (side : Side) (t : T) : List Msg → List Op → List (List Bytes)
+  | _, [] => []
+  | acc, .query :: h => t.spec side acc :: specReports side t acc h
+  | acc, .traffic m :: h => specReports side t (acc ++ [m]) h
+  | _, .reset :: h => specReports side t [] h
+
+/-- A concurrent history in phases, at the level of operations: `batch ms σ` = the exchanges `ms`
+run concurrently and their steps happen in the order `σ`. -/
+inductive COp
+  | batch (ms : List Msg) (σ : List Step)
+  | query
+  | reset
+
+def COp.phase (side : Side) (t : T) : COp → Phase
+  | .batch ms σ => .batch (ms.map fun m => t.mprog side m 0) σ
+  | .query => .query
+  | .reset => .reset (t.rprog side 0)
+
+/-- A sequential history of the same operations: the exchanges of a batch one after the other,
+in the order listed (any order that respects the goroutines' own order can be listed). -/
+def COp.linear : COp → List Op
+  | .batch ms _ => ms.map .traffic
+  | .query => [.query]
+  | .reset => [.reset]
+
+def COp.ok (side : Side) (t : T) : COp → Prop
+  | .batch ms σ => Interleaving (ms.map fun m => t.mprog side m 0) σ
+  | _ => True
 
 end Martian.Verify
